@@ -110,11 +110,16 @@ class Interp:
                 return self.globals[e.id]
             if e.id in BUILTIN_NAMES:
                 return BUILTIN_NAMES[e.id]
+            if e.id in ("str", "int", "bool", "bytes", "list", "tuple", "dict", "float"):
+                return {"str": str, "int": int, "bool": bool, "bytes": bytes, "list": list, "tuple": tuple, "dict": dict, "float": float}[e.id]
             raise Unsupported(f"name {e.id}")
         if isinstance(e, ast.Attribute):
             base = self.ev(e.value, env)
             if isinstance(base, Obj):
                 return base.get(e.attr)
+            extra = getattr(base, "_minipy_attrs", None)
+            if isinstance(extra, dict) and e.attr in extra:
+                return extra[e.attr]
             raise Unsupported(f"attribute {norm(e)[:40]} of a {type(base).__name__}")
         if isinstance(e, ast.Tuple):
             return tuple(self.ev(x, env) for x in e.elts)
